@@ -3,6 +3,7 @@ package rules
 import (
 	"fmt"
 	"go/token"
+	"go/types"
 	"regexp"
 	"sort"
 
@@ -92,7 +93,7 @@ func runNAVCOMMIT(c *Ctx) {
 						writes[fn] = map[int]string{}
 					}
 					writes[fn][paramIndex(p)] = "store to " + pathDesc(ir.Sym(st.Addr))
-					direct[fn] = append(direct[fn], Effect{st, "store to " + pathDesc(ir.Sym(st.Addr))})
+					direct[fn] = append(direct[fn], Effect{Instr: st, Desc: "store to " + pathDesc(ir.Sym(st.Addr))})
 				}
 			}
 		}
@@ -144,7 +145,7 @@ func runNAVCOMMIT(c *Ctx) {
 			for _, callee := range c.Facts.Callees(ci) {
 				for k, why := range writes[callee] {
 					if k < len(ci.Common().Args) && navStateRoot(ci.Common().Args[k]) != nil {
-						effs = append(effs, Effect{ci, "call " + callee.Name() + " [" + why + "]"})
+						effs = append(effs, Effect{Instr: ci, Desc: "call " + callee.Name() + " [" + why + "]"})
 					}
 				}
 			}
@@ -281,6 +282,94 @@ func compensated(fn *ssa.Function, call ssa.CallInstruction, effs []Effect) bool
 	for k := range before {
 		if !undone[k] {
 			return false
+		}
+	}
+	// the undo must restore the *old* state: every integer it uses (index, slice bound, stored number) is a
+	// constant, a snapshot taken before the first change, or the changed counter itself (x = x ∓ k)
+	var effStores []*ssa.Store
+	for _, e := range effs {
+		if st, ok := e.Instr.(*ssa.Store); ok && ir.InstrReaches(st, call) {
+			effStores = append(effStores, st)
+		}
+	}
+	postState := func(i ssa.Instruction) bool {
+		for _, e := range effStores {
+			if ir.InstrReaches(e, i) {
+				return true
+			}
+		}
+		return false
+	}
+	isInt := func(v ssa.Value) bool {
+		b, ok := v.Type().Underlying().(*types.Basic)
+		return ok && b.Info()&types.IsInteger != 0
+	}
+	var intLeavesOK func(v ssa.Value, self string, d int) bool
+	intLeavesOK = func(v ssa.Value, self string, d int) bool {
+		if d > 10 {
+			return false
+		}
+		switch x := v.(type) {
+		case *ssa.Const, *ssa.Parameter, *ssa.FreeVar, *ssa.Alloc, *ssa.Global:
+			return true
+		case *ssa.BinOp:
+			return intLeavesOK(x.X, self, d+1) && intLeavesOK(x.Y, self, d+1)
+		case *ssa.Convert:
+			return intLeavesOK(x.X, self, d+1)
+		case *ssa.IndexAddr:
+			return intLeavesOK(x.X, self, d+1) && intLeavesOK(x.Index, self, d+1)
+		case *ssa.FieldAddr:
+			return intLeavesOK(x.X, self, d+1)
+		case *ssa.Slice:
+			ok := intLeavesOK(x.X, self, d+1)
+			for _, bnd := range []ssa.Value{x.Low, x.High, x.Max} {
+				if bnd != nil {
+					ok = ok && intLeavesOK(bnd, self, d+1)
+				}
+			}
+			return ok
+		case *ssa.UnOp:
+			if x.Op != token.MUL {
+				return intLeavesOK(x.X, self, d+1)
+			}
+			if isInt(x) && postState(x) && locKey(ir.Sym(x.X)) != self {
+				// a number read back from state that has already been changed
+				if before[locKey(ir.Sym(x.X))] {
+					return false
+				}
+			}
+			return intLeavesOK(x.X, self, d+1)
+		case *ssa.Call:
+			if b, ok := x.Call.Value.(*ssa.Builtin); ok && (b.Name() == "len" || b.Name() == "cap") {
+				if postState(x) {
+					if ld, ok := x.Call.Args[0].(*ssa.UnOp); ok && ld.Op == token.MUL && before[locKey(ir.Sym(ld.X))] {
+						return false // the length of a slice that was already changed: not the old length
+					}
+				}
+				return intLeavesOK(x.Call.Args[0], self, d+1)
+			}
+			return true
+		case *ssa.Phi:
+			for _, e := range x.Edges {
+				if !intLeavesOK(e, self, d+1) {
+					return false
+				}
+			}
+			return true
+		}
+		return true
+	}
+	for _, b := range fn.Blocks {
+		if !nilFactOn(b, errV, false) {
+			continue
+		}
+		for _, ins := range b.Instrs {
+			if st, ok := ins.(*ssa.Store); ok && before[locKey(ir.Sym(st.Addr))] {
+				self := locKey(ir.Sym(st.Addr))
+				if !intLeavesOK(st.Addr, self, 0) || !intLeavesOK(st.Val, self, 0) {
+					return false
+				}
+			}
 		}
 	}
 	return true
